@@ -2,8 +2,8 @@
 From Coq Require Import List NArith String Bool Permutation.
 From V Require Import Base.Strings Base.Result Model.Registry Model.Settings Model.Subst
   Model.TypePath Model.Derives Model.Generate Model.Emit Model.Equal Model.Reach
-  Model.Builders Model.BuildersSpec Proofs.GenProofs Proofs.SortDedup
-  Proofs.OrderFree Proofs.DerivesExamples.
+  Model.Builders Model.BuildersSpec Model.ValidateSpec Proofs.GenProofs Proofs.SortDedup
+  Proofs.OrderFree Proofs.DerivesExamples Proofs.ValidateSets.
 Import ListNotations.
 
 (** derive and attribute lists in the output are sorted by key and duplicate free *)
@@ -193,3 +193,53 @@ Example C06_witness_hyps :
   dreg_same (s_dreg ex_settings) (s_dreg ex_settings') /\
   well_keyed (s_dreg ex_settings) (s_dreg ex_settings') (s_compact_as ex_settings).
 Proof. exact ex_order_free_hyps. Qed.
+
+(** [validation_as_sets] (the same statement as C11_validation_as_sets).  [kmap_perm a b] (Model/Reach.v): two key maps with
+    pairwise distinct keys, the same keys and set-equal derive / attribute lists under equal
+    keys (a hash map iterated in another order, its sets filled in another order or with
+    repetitions); [segs_functional l] (Model/ValidateSpec.v): the token string of a key
+    determines its ident segments (both are read off the same [syn] path).  For two such
+    derive registries and substitute lists that are permutations of each other (any registry,
+    known and unknown paths mixed), the two errors are equal as sets: no key twice, the same
+    keys among the derives and among the attributes, set-equal lists under each key, and the
+    unknown substitutes are a permutation.  The default derives play no role. *)
+Theorem C06_validation_as_sets :
+  forall (r : registry) (subs1 subs2 : substitutes) (dr1 dr2 : derives_registry),
+    kmap_perm (dr_specific dr1) (dr_specific dr2) ->
+    kmap_perm (dr_recursive dr1) (dr_recursive dr2) ->
+    segs_functional ((dr_specific dr1 ++ dr_recursive dr1) ++ (dr_specific dr2 ++ dr_recursive dr2)) ->
+    Permutation subs1 subs2 ->
+    let e1 := validate subs1 dr1 r in
+    let e2 := validate subs2 dr2 r in
+    (NoDup (map fst (ve_derives e1)) /\ NoDup (map fst (ve_derives e2)) /\
+     (forall K, In K (map fst (ve_derives e1)) <-> In K (map fst (ve_derives e2))) /\
+     (forall K x y, In (K, x) (ve_derives e1) -> In (K, y) (ve_derives e2) -> same_set x y)) /\
+    (NoDup (map fst (ve_attrs e1)) /\ NoDup (map fst (ve_attrs e2)) /\
+     (forall K, In K (map fst (ve_attrs e1)) <-> In K (map fst (ve_attrs e2))) /\
+     (forall K x y, In (K, x) (ve_attrs e1) -> In (K, y) (ve_attrs e2) -> same_set x y)) /\
+    Permutation (ve_subs e1) (ve_subs e2).
+Proof. exact validate_as_sets. Qed.
+Print Assumptions C06_validation_as_sets.
+
+(** ... for the public builders: two registration histories whose derive / attribute calls are
+    permutations of each other (substitute calls: any, as long as the resulting substitute
+    lists are permutations) yield validation errors equal as sets *)
+Theorem C06_validation_histories_as_sets :
+  forall (r : registry) (ops1 ops2 : list op),
+    Permutation (filter is_derive_op ops1) (filter is_derive_op ops2) ->
+    let st1 := fst (run_ops ops1) in
+    let st2 := fst (run_ops ops2) in
+    segs_functional ((dr_specific (b_dreg st1) ++ dr_recursive (b_dreg st1)) ++
+                     (dr_specific (b_dreg st2) ++ dr_recursive (b_dreg st2))) ->
+    Permutation (b_subs st1) (b_subs st2) ->
+    let e1 := validate (b_subs st1) (b_dreg st1) r in
+    let e2 := validate (b_subs st2) (b_dreg st2) r in
+    (NoDup (map fst (ve_derives e1)) /\ NoDup (map fst (ve_derives e2)) /\
+     (forall K, In K (map fst (ve_derives e1)) <-> In K (map fst (ve_derives e2))) /\
+     (forall K x y, In (K, x) (ve_derives e1) -> In (K, y) (ve_derives e2) -> same_set x y)) /\
+    (NoDup (map fst (ve_attrs e1)) /\ NoDup (map fst (ve_attrs e2)) /\
+     (forall K, In K (map fst (ve_attrs e1)) <-> In K (map fst (ve_attrs e2))) /\
+     (forall K x y, In (K, x) (ve_attrs e1) -> In (K, y) (ve_attrs e2) -> same_set x y)) /\
+    Permutation (ve_subs e1) (ve_subs e2).
+Proof. exact validate_histories_as_sets. Qed.
+Print Assumptions C06_validation_histories_as_sets.
